@@ -135,6 +135,33 @@ func registerTimeStubs() {
 		}
 		return tuple{strBytes(string(b)), iface{}}
 	})
+	// Format / AppendFormat: natively for concrete instants and layouts (same
+	// zone convention as MarshalJSON)
+	nativeTime := func(v value, what string) time.Time {
+		z, ns := timeParts(v)
+		if z {
+			return time.Time{}
+		}
+		n, ok := ns.(int64)
+		if !ok {
+			unsupported("Time.%s of a symbolic instant", what)
+		}
+		return time.Unix(0, n)
+	}
+	externals["(time.Time).Format"] = ext1(func(fr *frame, a []value) value {
+		layout, ok := a[1].(string)
+		if !ok {
+			unsupported("Time.Format with a symbolic layout")
+		}
+		return nativeTime(a[0], "Format").Format(layout)
+	})
+	externals["(time.Time).AppendFormat"] = ext1(func(fr *frame, a []value) value {
+		layout, ok := a[2].(string)
+		if !ok {
+			unsupported("Time.AppendFormat with a symbolic layout")
+		}
+		return append(append([]value(nil), a[1].([]value)...), strBytes(nativeTime(a[0], "AppendFormat").Format(layout))...)
+	})
 	externals["(*time.Time).UnmarshalJSON"] = ext1(func(fr *frame, a []value) value {
 		bs := a[1].([]value)
 		raw := make([]byte, len(bs))
